@@ -9,6 +9,7 @@ import (
 	"encoding/json"
 	"errors"
 	"fmt"
+	"io"
 	"os"
 	"strconv"
 	"strings"
@@ -251,7 +252,7 @@ func main() {
 	// truncated lead byte, a lone continuation byte) must come out as they went in
 	oneTexts := append([][]byte{}, texts...)
 	{
-		balpha := []byte{'a', '\n', 0xff, 0xc3, 0xa9}
+		balpha := []byte{'a', '\n', '\r', 0xff, 0xc3, 0xa9}
 		fr := [][]byte{{}}
 		for l := 1; l <= 4; l++ {
 			var next [][]byte
@@ -318,7 +319,7 @@ func main() {
 	}
 	// stacked writers: outer = NewWriter(inner, p2), inner = NewWriter(sink, p1), Write calls
 	// addressed to either of them in every interleaving (a line may be open at a hand-over)
-	nestedN := nested(f, res, maxLen-2)
+	nestedN := nested(f, res, maxLen-2) + siblings(f, res)
 	res.Distribution["nested_writer_cases"] = nestedN
 	res.Evaluations = int64(len(cases)+len(oneReq)) + nestedN
 	res.DistinctNontrivial = nontrivial
@@ -487,6 +488,67 @@ func nested(f *lib.Flags, res *lib.Result, maxSym int) int64 {
 				What: "stacked indent writers: what reached the sink / the returned counts differ from the composition of the two writers", Replay: map[string]any{"nested": reqs[i]}})
 		}
 	}
+	return int64(len(cases))
+}
+
+// siblings: several writers alive in one process at a time, with blank prefixes of different
+// lengths (what a tree printer uses), over separate sinks, their Write calls interleaved in every
+// order. Each sink must receive what its own writer alone produces (the model's `writes` for its own
+// chunks): writers share nothing.
+func siblings(f *lib.Flags, res *lib.Result) int64 {
+	prefixes := []string{"  ", "      ", "    ", "> "}
+	texts := [][]byte{[]byte("a"), []byte("a\n"), []byte("\n"), []byte("ab\ncd"), []byte("leaf a\n"), []byte("\r\n")}
+	type scase struct {
+		Order  []int    // which writer writes next
+		Chunks []string // hex, parallel to Order
+	}
+	var cases []scase
+	var reqs []string // len(prefixes) requests per case
+	var goOut []string
+	r := f.Rand(777)
+	for n := 0; n < 3000; n++ {
+		k := 2 + r.Intn(5)
+		c := scase{}
+		sinks := make([]bytes.Buffer, len(prefixes))
+		ws := make([]io.Writer, len(prefixes))
+		for i, p := range prefixes {
+			ws[i] = indent.NewWriter(&sinks[i], p)
+		}
+		per := make([][]string, len(prefixes))
+		perRes := make([]strings.Builder, len(prefixes))
+		for j := 0; j < k; j++ {
+			wi := r.Intn(len(prefixes))
+			t := texts[r.Intn(len(texts))]
+			c.Order = append(c.Order, wi)
+			c.Chunks = append(c.Chunks, lib.Hex(t))
+			nw, err := ws[wi].Write(t)
+			e := 0
+			if err != nil {
+				e = 1
+			}
+			fmt.Fprintf(&perRes[wi], " %d:%d", nw, e)
+			per[wi] = append(per[wi], lib.Hex(t))
+		}
+		cases = append(cases, c)
+		for i, p := range prefixes {
+			tc := tcase{Pre: lib.HexS(p), Chunks: per[i], FailAt: -1}
+			reqs = append(reqs, tc.request())
+			goOut = append(goOut, lib.Hex(sinks[i].Bytes())+" ;"+perRes[i].String())
+		}
+	}
+	ans, err := lib.ParBatch(f.Driver, reqs, f.Procs)
+	if err != nil {
+		lib.Fatal("driver: %v", err)
+	}
+	for i := range reqs {
+		if ans[i] != goOut[i] {
+			ci := i / len(prefixes)
+			res.AddDisagreement(lib.Disagreement{Kind: "correspondence", Input: map[string]any{"prefixes": prefixes, "case": cases[ci], "writer": i % len(prefixes)},
+				Go: goOut[i], Model: ans[i], SpecVerdict: "violates",
+				What: "several writers alive at once: a sink did not receive what its own writer alone produces (the writers share state)", Replay: map[string]any{"siblings": cases[ci]}})
+		}
+	}
+	res.Distribution["sibling_writer_cases"] = int64(len(cases))
 	return int64(len(cases))
 }
 
